@@ -1,9 +1,10 @@
 """C12 — configuration selection honours -D/-U and covers guarded code.
 
 Obligations
-  theorems   Cppcheck.Configs.*  (lean/Cppcheck/Props/C12.lean): coverage of every guarded region (full statement refuted
-             on the code by two proved counterexamples, proved for the exact class `safe` and for the repaired algorithm),
-             -D / -U composition, budget.
+  theorems   Cppcheck.Configs.*  (lean/Cppcheck/Props/C12.lean): coverage of every guarded region (main theorem
+             every_region_covered_fixElse for the fold as it is since commit 4aed040; full statement refuted by proved
+             counterexamples: F16 on the code, F15 on the fold before the commit; `safe` proved to be exactly the covered
+             class; full statement proved for the modelled repair of F16), -D / -U composition, budget.
   C1         real Preprocessor::getConfigs() == model getConfigs on printed directive lists (family trees, -D/-U,
              repeated macros, #define, malformed nesting), and real Preprocessor::getcode() (simplecpp) == model
              conditional-inclusion semantics `emit` for every returned configuration
@@ -23,7 +24,9 @@ RULE = ("cases = directive lists printed as C files: (a) trees of the property's
         "(c) repeated macros, #define inside, unbalanced nesting; non-trivial = at least two conditionals and one region; "
         "distinct = canonical op text")
 EXPLANATION = ("Lean theorems about an executable copy of getConfigs/cfg/hasDefine/isUndefined and of the selection loop of "
-               "checkInternal: the full coverage statement is refuted on the code as it is (two proved counterexamples = F15, F16), "
+               "checkInternal: main theorem every_region_covered_fixElse (the code as it is since commit 4aed040 covers every region of "
+               "every family tree whose `#if !defined` conditionals contain regions only); the full statement is refuted by a proved "
+               "counterexample for the code as it is (F16, known finding) and for the fold before 4aed040 (F15, fixed), "
                "proved for exactly the trees accepted by the decidable predicate `safe` (sufficiency and necessity: "
                "every_region_covered_iff_safe) and for every tree under the repaired algorithm; -D/-U/budget theorems. Tie: in-process correspondence of configurations and of per-configuration "
                "live regions (real simplecpp) plus CLI runs. Outside the model: #elif, #if expressions other than defined()/"
@@ -31,7 +34,7 @@ EXPLANATION = ("Lean theorems about an executable copy of getConfigs/cfg/hasDefi
 THEOREMS = ["Cppcheck.Configs.every_region_covered_of_safe", "Cppcheck.Configs.region_uncovered_counterexample",
             "Cppcheck.Configs.region_uncovered_counterexample_notdefined", "Cppcheck.Configs.every_region_covered_partial",
             "Cppcheck.Configs.region_uncovered_of_unsafe", "Cppcheck.Configs.every_region_covered_iff_safe",
-            "Cppcheck.Configs.every_region_covered_simple", "Cppcheck.Configs.every_region_covered_fixElse",
+            "Cppcheck.Configs.every_region_covered_fixElse",
             "Cppcheck.Configs.safe_repaired", "Cppcheck.Configs.every_region_covered_repaired",
             "Cppcheck.Configs.analysed_all_within_budget", "Cppcheck.Configs.covered_within_budget",
             "Cppcheck.Configs.D_in_every_config", "Cppcheck.Configs.U_in_no_extracted_config", "Cppcheck.Configs.U_in_no_config",
@@ -118,7 +121,7 @@ def nconds(items):
     return len(macros(items))
 
 
-FLAGS = [False, False]      # (fixElse, fixNotDef) of the working tree, set by detect_flags() in run()
+FLAGS = [True, False]       # (fixElse, fixNotDef) of the working tree, set by detect_flags() in run()
 
 
 def kcls(k, fl=None):
@@ -557,7 +560,7 @@ def run(ctx, res):
     exe = ctx.harness("c12")
     _reported.clear()
     fl = detect_flags(res)
-    FLAGS[:] = fl if fl else [False, False]
+    FLAGS[:] = fl if fl else [True, False]
     res.extra["fold_variant"] = dict(fixElse=FLAGS[0], fixNotDef=FLAGS[1], recognised=bool(fl))
 
     # ---- corpus first (witnesses of the known findings, past disagreements) ------------------------------------------
@@ -645,7 +648,8 @@ def run(ctx, res):
             pass                                    # default budget 12
         else:
             ud, undefs = gen_defines(rng, macros(t))
-            ud = ";".join(p for p in ud.split(";") if "(" not in p and ";" not in p.split("=", 1)[-1]) or "ZZ=1"
+            # what cmdlineparser composes from the -D arguments: a piece without `=` gets `=1`
+            ud = ";".join((p if "=" in p else p + "=1") for p in ud.split(";") if p and "(" not in p) or "ZZ=1"
             opt.update(ud=ud, undefs=undefs)
             if rng.random() < 0.5:
                 opt["maxc"] = rng.choice([2, 64])
